@@ -222,3 +222,36 @@ Theorem files_checker_sound :
       (has_off offs k = false -> f_offhd f = None).
 Proof. exact check_files_sound. Qed.
 Print Assumptions files_checker_sound.
+
+(* The tables the model produces pass the other observable checkers as well (a verdict "model and
+   implementation agree but the checker rejects" cannot arise for well-formed inputs). *)
+Theorem abaco_model_satisfies_checker :
+  forall pk sorted nchan,
+    Forall (fun p => 1 <= fst p < 65536) pk -> abaco_sample pk = Some (sorted, nchan) -> zlen sorted < 65536 ->
+    check_abaco pk (abaco_prepare sorted) = true.
+Proof. exact abaco_model_passes_checker. Qed.
+Print Assumptions abaco_model_satisfies_checker.
+
+Theorem roach_model_satisfies_checker :
+  forall n, 0 <= n < 65536 -> check_roach n (roach_prepare n) = true.
+Proof. exact roach_model_passes_checker. Qed.
+Print Assumptions roach_model_satisfies_checker.
+
+Theorem simulated_model_satisfies_checker :
+  forall n sd, 1 <= n < 65536 -> check_sim n (default_prepare n (sim_rc n) sd) = true.
+Proof. exact sim_model_passes_checker. Qed.
+Print Assumptions simulated_model_satisfies_checker.
+
+Theorem erroring_model_satisfies_checker :
+  forall n, 0 <= n -> check_erroring n (erroring_prepare n) = true.
+Proof. exact erroring_model_passes_checker. Qed.
+Print Assumptions erroring_model_satisfies_checker.
+
+(* file names and header identities computed from tables with distinct names pass the files checker *)
+Theorem files_model_satisfies_checker :
+  forall t src base today i offs cf,
+    no_percent base -> no_percent today -> NoDup (t_names t) ->
+    files_of t src (make_directory base today i) offs = Ok cf ->
+    check_files t src offs cf (zlen cf * 2 + zlen (filter (has_off offs) (zrange 0 (zlen cf))) + 1) = true.
+Proof. exact files_model_passes_checker. Qed.
+Print Assumptions files_model_satisfies_checker.
